@@ -12,6 +12,7 @@
 //   grid    the same DbGrid with DirParam::createFromGrid          (grid-specialised algorithm,
 //           only the directions the specification declares grid-compatible; + general1..3)
 // Algorithms: "gen" = ordinary call, "bys" = by-sample option (flag_sample = true).
+// Data sets with several samples at one position are not presented as grids.
 // A run whose numbers are bit-identical to the corresponding base run is written as {"same":true}
 // (compression only).
 //
@@ -40,6 +41,7 @@ using vj::Value;
 struct Sample { std::vector<int> p; std::vector<int> z; int s; int w; };
 struct DirSpec { int npas, p2, tn, td, tolang, bn, bd, cn, cd; std::vector<int> cod; bool grid; bool ok; };
 struct Case {
+  bool dup = false;   // several samples at one position: not representable as a DbGrid
   long id; std::vector<int> dims; int nvar; bool hasSel, hasW; std::vector<Sample> pts;
   std::vector<DirSpec> dirs; std::vector<std::string> modes;
 };
@@ -102,6 +104,9 @@ static Case readCase(const Value& v)
     c.dirs.push_back(d);
   }
   c.modes = v.at("modes").strings();
+  for (size_t a = 0; a < c.pts.size(); a++)
+    for (size_t b = a + 1; b < c.pts.size(); b++)
+      if (c.pts[a].p == c.pts[b].p) c.dup = true;
   return c;
 }
 
@@ -277,6 +282,7 @@ static Value runRecord(const char* variant, const char* algo, const std::string&
 static bool hasPhase(const Case& c, int phase)
 {
   if (phase == 0) return true;
+  if (c.dup) return false;
   bool gridable = false;
   for (auto& d : c.dirs) if (d.grid && d.ok) gridable = true;
   if (!gridable) return false;
@@ -317,7 +323,8 @@ static void processCase(const Case& c, int phase, FILE* out, unsigned seed)
   DbGrid* gBase = makeGrid(c, zero);
   DbGrid* gTr = makeGrid(c, tr);
   std::vector<Var> vars = {{"base", dbBase, true}, {"rev", dbRev, false}, {"shuf", dbShuf, false},
-                           {"tr", dbTr, true}, {"dbgrid", gBase, false}};
+                           {"tr", dbTr, true}};
+  if (!c.dup) vars.push_back({"dbgrid", gBase, false});
   VarioParam* vp = makeParam(c, all);
 
   for (const std::string& mode : c.modes)
@@ -354,7 +361,7 @@ static void processCase(const Case& c, int phase, FILE* out, unsigned seed)
     }
   }
   // grid-specialised algorithm on the directions declared grid-compatible by the specification
-  if (!gridable.empty())
+  if (!gridable.empty() && !c.dup)
   {
     std::vector<std::string> gm;
     if (phase == 0) { for (auto& m : c.modes) if (m != "covg") gm.push_back(m); }
